@@ -1,4 +1,6 @@
 """Helpers shared by the per-property rule modules."""
+import os
+
 from .. import pathai
 from .. import terms as T
 from ..build import AnalysisBroken
@@ -7,7 +9,31 @@ from ..terms import C, Facts
 CT_COMPARATORS = {"crypto_verify_16": 16, "crypto_verify_32": 32, "crypto_verify_64": 64}
 
 
-def paths(prog, fn, **kw):
+_KEEP = None
+
+
+def rule_named_functions():
+    """every identifier that a rule module spells as a string: functions the rules want to see as calls"""
+    global _KEEP
+    if _KEEP is None:
+        import glob
+        import os
+        import re
+        names = set()
+        for f in glob.glob(os.path.join(os.path.dirname(__file__), "*.py")):
+            names |= set(re.findall(r'["\']([A-Za-z_][A-Za-z0-9_]*)["\']', open(f).read()))
+        _KEEP = frozenset(names)
+    return _KEEP
+
+
+def paths(prog, fn, inline_helpers=None, **kw):
+    """E1 paths of fn. Small loop-free static helpers defined in the same source file that no rule names are inlined
+    first (lib/vf/inline.py), so that extracting a few statements into a helper does not change what the rules see."""
+    if inline_helpers is None:
+        inline_helpers = os.environ.get("VERIF_INLINE", "1") == "1"
+    if inline_helpers:
+        from .. import inline
+        fn = inline.inlined(prog, fn, keep=rule_named_functions())
     return pathai.paths_of(prog, fn, writers=prog.callgraph(), **kw)
 
 
@@ -409,3 +435,37 @@ def limits_rule(chk, rule, prog, rows, what="success return"):
                            key="%s %s %s-%s" % (rule, name, role, "unbounded" if (iv[0] < lo and iv[1] > hi) else
                                                 ("below-min" if iv[0] < lo else "above-max")))
     return nsites
+
+
+def sibling_skeleton_rule(prog, chk, rule, names, roles, callees, floor_shapes=10):
+    """E7: the scalar control skeleton - every branch condition and every call to the listed scalar helpers, role-normalised -
+    must be the same set in all sibling implementations of one interface (e.g. the four Argon2 block-fill backends compute
+    the reference lane / index identically; only the block compression differs)."""
+    sets = {}
+    for nm in names:
+        fn = prog.fn(nm)
+        if fn is None:
+            continue
+        S = {}
+        for p in paths(prog, fn):
+            sh = Shaper(prog, p, roles)
+            for e in p.events:
+                if e.kind == "fact" or (e.kind == "call" and (e.callee_name() or "") in callees):
+                    S.setdefault(str(sh.event(e)), (fn, e.iid))
+        sets[nm] = S
+    if len(sets) < 2:
+        if chk.relaxed:
+            return
+        raise AnalysisBroken("%s: fewer than two sibling implementations among %s" % (rule, names))
+    ref_name = next(iter(sets))
+    ref = sets[ref_name]
+    for nm, S in sets.items():
+        only = sorted(set(S) - set(ref))
+        missing = sorted(set(ref) - set(S))
+        ok = not only and not missing
+        where = S[only[0]] if only else (ref[missing[0]] if missing else None)
+        chk.ob(rule, prog.fn(nm), "scalar control skeleton (%d shapes) equals that of %s" % (len(S), ref_name), ok,
+               loc=where[0].loc(where[1]) if where else None,
+               detail="" if ok else "only here: %s | only in %s: %s" % ([x[:260] for x in only[:1]], ref_name, [x[:260] for x in missing[:1]]),
+               key="%s %s" % (rule, nm))
+    chk.floor(rule, "role-normalised skeleton shapes of %s" % ref_name, len(ref), floor_shapes)
